@@ -219,7 +219,7 @@ Section Loop.
   Qed.
 End Loop.
 
-(** without the repair 90667bc: for a resolution <= 0 the loop never finishes, whatever the fuel *)
+(** without the repair 0d98c78: for a resolution <= 0 the loop never finishes, whatever the fuel *)
 Lemma dloop_diverges p1 p2 L r fuel : forall d,
   r <= 0 -> d < L -> dloop fuel p1 p2 L r d = None.
 Proof.
@@ -904,7 +904,7 @@ Section ToCrsProofs.
   Qed.
 End ToCrsProofs.
 
-(** before f270811: "auto" on a zero-area geometry reaches densify with resolution 0,
+(** before ecfe9c0: "auto" on a zero-area geometry reaches densify with resolution 0,
     whose loop never finishes *)
 Lemma unrepaired_auto_zero_area crs crs_eqb geographic proj is_valid repair chop clip (s c : crs) w cf :
   crs_eqb s c = false ->
